@@ -186,6 +186,7 @@ def run(chk, replay=None):
                                   'rows': {k: info[k] for k in ('mul_rows', 'div_rows', 'class_rows', 'transform_rows', 'known_dims')},
                                   'duplicate_keys': info['duplicate_keys'],
                                   'ast_vs_introspection_mismatches': info['ast_vs_introspection_mismatches'],
+                                  'code_flags': info['flags'],
                                   'introspected_from': info['introspected_from']}
     chk.coverage['trusted_base'] = chk.coverage['trusted_base'] + [
         'tx_tables reads _mul_mapping/_div_mapping, _default_units, domains.py, the quantity mixins and every units_scale with ast; '
@@ -608,8 +609,14 @@ def run(chk, replay=None):
 
     # ---- 4. classification
     chk.coverage['correspondence']['samples_of_disagreement'] = disagreements[:8]
-    if broken and cex[0] == 0:
-        for b in broken[:20]:
+    # a failed `flag_*` theorem says the code lacks one of the repairs; it is explained exactly when the
+    # oracle has exhibited the corresponding recorded finding in this run
+    flag_finding = {'flag_div_restores_units': 'C18-F19', 'flag_pow_sets_units': 'C18-F18',
+                    'flag_recip_sets_units': 'C18-F19b', 'flag_omega_needs_quantity': 'C18-F20'}
+    unexplained_broken = [b for b in broken if flag_finding.get(b.split(':')[-1]) not in chk.known_seen]
+    chk.coverage['broken_obligations_explained_by_known_findings'] = [b for b in broken if b not in unexplained_broken]
+    if unexplained_broken and cex[0] == 0:
+        for b in unexplained_broken[:20]:
             chk.unexplained('broken-obligation', b, chk.coverage.get('build_log_tail', '')[-600:])
     elif broken:
         chk.coverage['broken_obligations_explained_by_counterexamples'] = True
